@@ -48,6 +48,8 @@ NAME_CLASSES = {
     "decomposed-accent": "cafe\u0301 bar",
     "composed-accent": "caf\u00e9 bar",
     "angstrom-sign": "\u212b unit",
+    "percent": "50% off",
+    "percent-escape-look-alike": "a%22b%25",
 }
 
 
@@ -281,6 +283,8 @@ def large_models(mb: ModelBuilder, ops: Iterable[str], mixed: bool = True, cardi
         # bounds whose texts order differently from their values ("2" > "10", "9" > "11")
         mb.relation(hosts[5], [F(f"Two{j:02d}") for j in range(12)], 2, 10)
         mb.relation(hosts[6], [F(f"Nine{j:02d}") for j in range(12)], 9, 11)
+        # [1..k] with 1 < k < n: looks like an or-group until the (k+1)-th member is counted
+        mb.relation(hosts[7], [F(f"Some{j:02d}") for j in range(5)], 1, 3)
     if mixed:
         mb.relation(hosts[3], [F("m1")], 1, 1)
         mb.relation(hosts[3], [F("g1"), F("g2"), F("g3")], 1, 3)
